@@ -19,7 +19,7 @@ variable {α : Type} [Field α] [LinearOrder α] [IsStrictOrderedRing α]
 
 /-- The lawful number-system services of a linear ordered field (`log` stays a parameter). -/
 def NumOps.ofField (log : α → α) : NumOps α :=
-  ⟨log, fun a b => decide (a < b), fun a b => decide (a ≤ b), fun a => |a|, fun a => decide (a = 0)⟩
+  ⟨log, fun a b => decide (a < b), fun a b => decide (a ≤ b), fun a => |a|, fun a => decide (a = 0), fun _ => true⟩
 
 /-- All entries of a vector are non-negative. -/
 def NonnegL (l : List α) : Prop := ∀ x ∈ l, 0 ≤ x
